@@ -1906,6 +1906,99 @@ def compare_in_spell(env, model, r):
     return None
 
 
+def neighbour_case(env: Env, mid, mod, force, case):
+    """Two narrowly-caught neighbours, through the public API only (constructor -> spox.build -> ModelProto):
+    `loop` with any subset of M / cond and 0 / 1 carried values - the Loop schema's min_input (2) exceeds its
+    leading required inputs (0), so the bare call must still emit `["", ""]`; and `reduce_max` / `reduce_min` on a
+    bool tensor in the modules whose schema in force is ReduceMax/Min-20 (bool joined the type constraint there):
+    the module's constructor must build that class. -> [(key, what)]"""
+    np = env.np
+    out = []
+    with warnings.catch_warnings():
+        warnings.simplefilter("ignore")
+        if case["what"] == "loop":
+            schema = force.get("Loop")
+            args, ins, want = {}, {}, []
+            if "M" in case["present"]:
+                args["M"] = ins["in_M"] = env.argument(env.tensor(np.int64, ()))
+            want.append("in_M" if "M" in case["present"] else "")
+            if "cond" in case["present"]:
+                # spox types the body's `cond` formal bool[1]; a rank-0 outer cond is refused by ONNX's inference
+                args["cond"] = ins["in_cond"] = env.argument(env.tensor(np.bool_, (1,)))
+            want.append("in_cond" if "cond" in case["present"] else "")
+            vs = []
+            for i in range(case["nv"]):
+                v = env.argument(env.tensor(np.float32, (2,)))
+                ins[f"in_v_{i}"] = v
+                vs.append(v)
+                want.append(f"in_v_{i}")
+            try:
+                res = mod.loop(**args, v_initial=vs,
+                               body=lambda it, c, *st: [mod.const(True), *st, mod.const(np.float32(1.5))])
+                model = env.spox.build(ins, {f"r{i}": mod.shape(r) for i, r in enumerate(res)})
+            except Exception as e:  # noqa: BLE001
+                return [(f"{mid}:Loop:call:raised", f"loop({sorted(case['present'])}, {case['nv']} carried values) raised {type(e).__name__}: {str(e)[:150]}")]
+            nodes = [n for n in model.graph.node if n.op_type == "Loop"]
+            got = list(nodes[0].input) if len(nodes) == 1 else None
+            if got != want:
+                slot = "M" if got is None or len(got) < 1 or got[0] != want[0] else ("cond" if len(got) < 2 or got[1] != want[1] else "v_initial")
+                out.append((f"{mid}:Loop:{slot}:slot", f"loop({sorted(case['present'])}, {case['nv']} carried values): inputs emitted as {got}, "
+                            f"schema slots demand {want} (min_input {schema.min_input if schema else '?'})"))
+        else:
+            opn = case["op"]
+            schema = force.get(opn)
+            fn = mod._CONSTRUCTORS.get(opn)
+            x = env.argument(env.tensor(np.bool_, (2, 3)))
+            try:
+                y = fn(x, keepdims=0)
+                model = env.spox.build({"in_data": x}, {"y": y})
+            except Exception as e:  # noqa: BLE001
+                return [(f"{mid}:{opn}:constructor:class", f"{mid}.{fn.__name__}(<bool tensor>) raised {type(e).__name__}: {str(e)[:120]} - the schema in "
+                         f"force ({opn}-{schema.since_version}) admits bool, an older class does not")]
+            imp = {o.domain: o.version for o in model.opset_import}.get("")
+            elem = model.graph.output[0].type.tensor_type.elem_type
+            if imp is None or imp < schema.since_version or elem != env.onnx.TensorProto.BOOL:
+                out.append((f"{mid}:{opn}:import:version", f"{opn} on bool: model imports ai.onnx {imp}, output element type {elem}; "
+                            f"schema in force is {opn}-{schema.since_version}"))
+    return out
+
+
+def neighbour_cases(force):
+    cases = []
+    if "Loop" in force:
+        for present in ([], ["M"], ["cond"], ["M", "cond"]):
+            for nv in (0, 1):
+                cases.append({"what": "loop", "present": present, "nv": nv})
+    for opn in ("ReduceMax", "ReduceMin"):
+        sc = force.get(opn)
+        if sc is not None and sc.since_version >= 20:
+            cases.append({"what": "reducebool", "op": opn})
+    return cases
+
+
+def public_neighbours_oracle(ck, env: Env, stats):
+    from translator.constructors import MODULES
+
+    for mid, rel, domain, version, pymod in MODULES:
+        if domain != "":
+            continue
+        try:
+            mod = env.module(pymod)
+            force = env.schemas(domain, version)
+        except Exception:  # noqa: BLE001 - reported by public_oracle
+            continue
+        for case in neighbour_cases(force):
+            try:
+                verdicts = neighbour_case(env, mid, mod, force, case)
+            except Exception as e:  # noqa: BLE001
+                ck.broken("correspondence", f"public neighbour oracle {mid} not observable", f"{type(e).__name__}: {e}")
+                continue
+            stats["public_neighbour_cases"] = stats.get("public_neighbour_cases", 0) + 1
+            ck.count(("public-neighbour", mid, repr(case)))
+            for k, what in verdicts:
+                ck.failure(k, what, {"module": mid, "op": "Loop" if case["what"] == "loop" else case["op"], "kind": "public-neighbour", "case": case})
+
+
 DTYPE_SPECS = [
     {"op": "RandomNormal", "inputs": {}, "attrs": {"shape": [2]}, "always": ["shape"]},
     {"op": "RandomUniform", "inputs": {}, "attrs": {"shape": [2]}, "always": ["shape"]},
@@ -2230,6 +2323,7 @@ def run(ck: core.Check):
             public_type_oracle(ck, env, stats)
             public_dtype_oracle(ck, env, stats, ck.rng)
             public_spelling_oracle(ck, env, stats)
+            public_neighbours_oracle(ck, env, stats)
         except Exception as e:  # noqa: BLE001
             ck.broken("correspondence", "public tensor/type oracle not observable", f"{type(e).__name__}: {e}")
     reqs, req_meta = [], []
@@ -2327,6 +2421,8 @@ def replay(ck: core.Check, doc) -> bool:
         print("outcome:", r["status"], r.get("err"), str(r.get("proto")).replace("\n", " ")[:300])
         if r["status"] != "unobservable":
             verdicts += SP.judge(env, mid, op, schema, c["case"], r["status"], r["mro"], r["err"], r["proto"])
+    if c.get("kind") == "public-neighbour":
+        verdicts += neighbour_case(env, mid, mod, env.schemas(domain, version), c["case"])
     if c.get("kind") == "inspell" and fn is not None:
         r = run_in_spell_case(env, fn, schema, c["case"])
         print("outcome:", r["status"], r.get("err"), None if r.get("proto") is None else list(r["proto"].input))
